@@ -237,7 +237,8 @@ namespace GeographicLib {
     // min iterations = 1, max iterations = 2; mean = 1.95
     static const T tol = sqrt(numeric_limits<T>::epsilon()) / 10;
     static const T taumax = 2 / sqrt(numeric_limits<T>::epsilon());
-    T e2m = 1 - sq(es),
+    // es < 0 is used to represent a prolate ellipsoid with e^2 = -es^2
+    T e2m = es < 0 ? 1 + sq(es) : 1 - sq(es),
       // To lowest order in e^2, taup = (1 - e^2) * tau = _e2m * tau; so use
       // tau = taup/e2m as a starting guess. Only 1 iteration is needed for
       // |lat| < 3.35 deg, otherwise 2 iterations are needed.  If, instead, tau
